@@ -152,6 +152,26 @@ def check_dense(line, M, ctx, K, desc):
         if not np.all(d[~stored] == floor):
             ctx.violation('dense-floors-pruned-entries', f'{K}/get_dense_logits/floor', f'{desc}: {d.tolist()} floor {floor}')
             return
+    # a pruned entry may also be STORED as an explicit 0.0 (pruning in place without eliminate_zeros, other sparse layouts): same dense result
+    if M.nnz >= 2:
+        keep_logits = line.logits
+        for fmt in ('csc', 'csr', 'coo'):
+            m2 = M.copy().tocsc()
+            victim = (int(m2.indices[0]), int(np.searchsorted(m2.indptr, 0, side='right') - 1))
+            m2.data[0] = 0.0                                     # first stored entry becomes an explicit zero
+            want = np.asarray(M.toarray()).astype(np.float64)
+            want[victim] = 0.0
+            want[want == 0] = -80.0
+            line.logits = m2.asformat(fmt)
+            got = np.asarray(line.get_dense_logits(), dtype=np.float64)
+            ctx.executed()
+            if got.shape != want.shape or not np.array_equal(got, want):
+                line.logits = keep_logits
+                ctx.violation('dense-floors-pruned-entries', f'{K}/get_dense_logits/explicitly-stored-zero-not-floored',
+                              f'{desc}: logits held as {fmt} matrix with an explicitly stored 0.0 at {victim}: dense {got.tolist()}, expected {want.tolist()}')
+                return
+        line.logits = keep_logits
+        ctx.tag('explicit-zeros-and-other-sparse-formats')
     lp = line.get_full_logprobs()
     ctx.executed()
     if np.abs(np.exp(lp.astype(np.float64)).sum(axis=1) - 1).max() > (1e-9 if lp.dtype == np.float64 else 1e-5):   # float32 logits: float32 round-off
@@ -428,5 +448,5 @@ def describe(tier):
         'bounds': BOUNDS[tier],
         'alphabets': {'matrices': MATS, 'charsets': CHARSETS, 'windows': WINDOWS},
         'assumptions': ['no stored entry is exactly 0.0 (precondition of the format)', 'line ids never equal the table keys'],
-        'min_nontrivial': 100, 'required_tags': ['multi-line-pages', 'missing-component-cases', 'end-to-end-pages', 'filter-splits-the-page', 'logits-loaded-into-a-used-layout', 'more-than-nine-lines'],
+        'min_nontrivial': 100, 'required_tags': ['multi-line-pages', 'missing-component-cases', 'end-to-end-pages', 'filter-splits-the-page', 'logits-loaded-into-a-used-layout', 'more-than-nine-lines', 'explicit-zeros-and-other-sparse-formats'],
     }
